@@ -198,12 +198,6 @@ def absR (q : Rat) : Rat := if q < 0 then -q else q
 /-- `_get_pixel_id` for one axis (repaired): `int(abs(p - coords[0]) / cellsize + 0.5)` -/
 def pixelId (c0 cellsize p : Rat) : Int := (absR (p - c0) / cellsize + 1 / 2).floor
 
-/-- `_is_not_crossable`: NaN (`none`) or equal to a barrier value -/
-def notCrossable (v : Option Rat) (barriers : List Rat) : Bool :=
-  match v with
-  | none => true
-  | some x => barriers.any (fun b => x == b)
-
 /-- a cell or barrier value as the caller wrote it: NaN, ±∞ or an exact real number (whatever
     dtype the surface has and whatever Python numbers the barrier list holds) -/
 inductive Val where
